@@ -47,6 +47,8 @@ class BicTask(T.Task):
         if self.mode == "construct":
             return I.call(BIC, [inp["p"]], {"enforce_swift_compliance": inp["strict"]})
         obj = I.call(BIC, [inp["p"]], {"allow_invalid": True})
+        if self.mode == "from-object":
+            return I.call(BIC, [obj], {"enforce_swift_compliance": inp["strict"]})
         if self.mode == "is_valid":
             return I.getattr(obj, "is_valid")
         return I.call(I.getattr(obj, "validate"), [], {"enforce_swift_compliance": inp["strict"]})
@@ -83,6 +85,8 @@ class BicTask(T.Task):
         from schwifty import BIC
         if self.mode == "construct":
             o = T.native_obs(lambda: BIC(inp["p"], enforce_swift_compliance=inp["strict"]))
+        elif self.mode == "from-object":
+            o = T.native_obs(lambda: BIC(BIC(inp["p"], allow_invalid=True), enforce_swift_compliance=inp["strict"]))
         elif self.mode == "is_valid":
             o = T.native_obs(lambda: BIC(inp["p"], allow_invalid=True).is_valid)
         else:
